@@ -684,6 +684,10 @@ APALACHE = {
 
 
 TLAPS = {
+    "C16": {"module": "C16_Machine.tla", "needs": ["BulkMachine.tla"],
+            "theorems": ["C16: Spec => [](Atomic /\\ Done /\\ FailPos)  (inductive invariant IndInv; Invariance, Clauses)"],
+            "bound": "none (tables of any length, uninterpreted cell semantics)",
+            "bridge": "Bulk.tla INSTANTIATES BulkMachine.tla (its Begin / StepRow / WriteAll are the proved machine's actions); TraceBulk.tla validates recorded executions against them"},
     "C05": {"module": "C05_Step.tla",
             "theorems": ["Step: Inv /\\ Next => OneOwner(recs')", "StepIndex: Inv /\\ Next => pm' = PMOf(recs')"],
             "bridge": "Prop_Bridge on mc/MC_Incr.tla: every add step of Conv!AddRecord is a step of StepRel"},
@@ -705,7 +709,7 @@ def tlaps_proof(pid):
     cfg = TLAPS[pid]
     d = tlc.scratch("tlaps")
     try:
-        for fn in ("StepRel.tla", os.path.join("tlaps", cfg["module"])):
+        for fn in cfg.get("needs", ["StepRel.tla"]) + [os.path.join("tlaps", cfg["module"])]:
             shutil.copy(os.path.join(tlc.SPEC, fn), d)
         t = time.time()
         try:
@@ -716,7 +720,7 @@ def tlaps_proof(pid):
         if not m:
             raise MachineryError(f"TLAPS no longer proves spec/tlaps/{cfg['module']} (the step relation or the proof was changed)\n" + p.stdout[-1200:])
         return {"module": "spec/tlaps/" + cfg["module"], "theorems": cfg["theorems"], "obligations_proved": int(m.group(1)), "wall_s": round(time.time() - t, 1),
-                "bound": "none (any number of records, uninterpreted strings and case folding)", "bridge": cfg["bridge"]}
+                "bound": cfg.get("bound", "none (any number of records, uninterpreted strings and case folding)"), "bridge": cfg["bridge"]}
     finally:
         shutil.rmtree(d, ignore_errors=True)
 
